@@ -17,6 +17,8 @@ use verif_harness::mockio::{Item, MockIo};
 use verif_harness::report::{hash_of, Report};
 
 thread_local! {
+    static WRITTEN: std::cell::Cell<usize> = const { std::cell::Cell::new(0) };
+    static LAST_BOUNDS: std::cell::RefCell<Vec<usize>> = const { std::cell::RefCell::new(Vec::new()) };
     static T0: std::cell::Cell<Option<tokio::time::Instant>> = const { std::cell::Cell::new(None) };
 }
 
@@ -311,6 +313,9 @@ fn response_bytes(id: i64, app: u8, typ: &str, tok: i64, rng: &mut StdRng) -> Ve
 }
 
 fn push_chunked(io: &MockIo, bytes: &[u8], rng: &mut StdRng) {
+    if bytes.is_empty() {
+        return; // an empty read would be an end of file
+    }
     match rng.gen_range(0..4) {
         0 => {
             for b in bytes {
@@ -761,6 +766,68 @@ fn run_script(n: u64, script: &[serde_json::Value], out: &mut Vec<String>, rep: 
                     io.push(Item::Eof);
                     net_up = false;
                 }
+                "wfail-at" => {
+                    // writes fail once the client has written this many bytes in total (fault enumeration)
+                    io.fail_writes_at(step["off"].as_u64().unwrap() as usize, std::io::ErrorKind::BrokenPipe);
+                }
+                "wfail-now" => {
+                    // the moment from which the model considers writes failing (the next request is the one cut short)
+                    emit("\"ev\":\"SrvClose\",\"how\":\"wfail\"".to_string());
+                }
+                "srvcut" => {
+                    // the server writes several responses as one byte stream which is cut at byte `cut` by a fault
+                    let cut = step["cut"].as_u64().unwrap() as usize;
+                    let how = step["how"].as_str().unwrap();
+                    let mut stream: Vec<u8> = vec![];
+                    let mut bounds: Vec<(usize, i64, String, i64)> = vec![]; // end offset, id, typ, tok
+                    for it in step["items"].as_array().unwrap() {
+                        let id = slots.get(it["o"].as_str().unwrap()).map(|s| s.id).unwrap_or(-1);
+                        let typ = it["typ"].as_str().unwrap().to_string();
+                        let app = pending.iter().find(|p| p.id == id).map(|p| p.app).unwrap_or(0);
+                        tok += 1;
+                        let mut r2 = StdRng::seed_from_u64(tok as u64);
+                        stream.extend(response_bytes(id, app, &typ, tok, &mut r2));
+                        bounds.push((stream.len(), id, typ, tok));
+                    }
+                    let cut = cut.min(stream.len());
+                    rep.counters.insert("last_stream_len".to_string(), stream.len() as u64);
+                    LAST_BOUNDS.with(|b| *b.borrow_mut() = bounds.iter().map(|x| x.0).collect());
+                    for (end, id, typ, t) in &bounds {
+                        if *end <= cut {
+                            emit(format!("\"ev\":\"SrvSend\",\"id\":{},\"typ\":\"{}\",\"tok\":{}", id, typ, t));
+                            if typ == "res" || typ == "done" {
+                                pending.retain(|p| p.id != *id);
+                            }
+                        }
+                    }
+                    let at_boundary = cut == 0 || bounds.iter().any(|b| b.0 == cut);
+                    net_up = false;
+                    match (how, at_boundary) {
+                        ("eof", true) => {
+                            emit("\"ev\":\"SrvClose\",\"how\":\"eof\"".to_string());
+                            push_chunked(&io, &stream[..cut], &mut rng);
+                            io.push(Item::Eof);
+                        }
+                        ("eof", false) => {
+                            // a frame cut short by the close can never complete: an undecodable frame for the client
+                            emit("\"ev\":\"SrvGarbage\"".to_string());
+                            push_chunked(&io, &stream[..cut], &mut rng);
+                            io.push(Item::Eof);
+                        }
+                        ("reset", _) => {
+                            emit("\"ev\":\"SrvClose\",\"how\":\"reset\"".to_string());
+                            push_chunked(&io, &stream[..cut], &mut rng);
+                            io.push(Item::Err(std::io::ErrorKind::ConnectionReset));
+                        }
+                        _ => {
+                            // garbage continuation: the next bytes are not a BER element of an LDAPMessage
+                            emit("\"ev\":\"SrvGarbage\"".to_string());
+                            push_chunked(&io, &stream[..cut], &mut rng);
+                            io.push_bytes(&[0x04, 0x03, 0x41, 0x42, 0x43]);
+                            io.push(Item::Eof);
+                        }
+                    }
+                }
                 _ => {}
             }
             settle().await;
@@ -842,7 +909,9 @@ fn run_script(n: u64, script: &[serde_json::Value], out: &mut Vec<String>, rep: 
             io.shutdown_seen(),
             std::sync::Arc::strong_count(&io.0) == 1
         ));
+        WRITTEN.with(|w| w.set(io.0.lock().unwrap().written));
     });
+    rep.counters.insert("last_written".to_string(), WRITTEN.with(|w| w.get()) as u64);
     let lines = ldap3::verif::take();
     rep.eval(true, hash_of(&lines));
     rep.count(if followed { "scripts_followed_to_the_end" } else { "scripts_cut_short_by_an_allowed_race" });
@@ -853,6 +922,98 @@ fn run_script(n: u64, script: &[serde_json::Value], out: &mut Vec<String>, rep: 
     out.push(format!("{{\"seq\":0,\"ev\":\"Reset\",\"seed\":{}}}", n));
     out.extend(lines);
     followed
+}
+
+fn bounds_of(b: &[usize], cut: usize) -> bool {
+    cut == 0 || b.contains(&cut)
+}
+
+/// C04 fault enumeration: for each base scenario the response byte stream is cut at EVERY byte offset by each fault kind,
+/// and the request byte stream at every offset by a write failure. Events are validated by TraceLdapConn as usual.
+fn run_faultenum(out: &mut Vec<String>, rep: &mut Report, stride: usize) {
+    let st = |o: &str, k: &str, t: i64, ad: bool, tg: &str| json!({"a": "start", "o": o, "k": k, "t": t, "ad": ad, "tg": tg});
+    let it = |o: &str, typ: &str| json!({"o": o, "typ": typ});
+    // (steps before the cut, items of the cut stream)
+    let bases: Vec<(Vec<serde_json::Value>, Vec<serde_json::Value>)> = vec![
+        (
+            vec![st("o1", "single", 0, false, "none"), st("o2", "single", 0, false, "none"), st("o3", "search", 0, false, "none"), json!({"a": "next", "o": "o3"})],
+            vec![it("o3", "ent"), it("o1", "res"), it("o3", "ent"), it("o3", "done"), it("o2", "res")],
+        ),
+        (
+            vec![st("o1", "search", 0, true, "none"), json!({"a": "next", "o": "o1"}), st("o2", "single", 0, false, "none")],
+            vec![it("o1", "ref"), it("o1", "ent"), it("o2", "res"), it("o1", "int"), it("o1", "done")],
+        ),
+        (
+            vec![st("o1", "single", 0, false, "none"), json!({"a": "srv", "o": "o1", "typ": "res"}), st("o2", "search", 0, false, "none"), json!({"a": "next", "o": "o2"})],
+            vec![it("o2", "ent"), it("o2", "done")],
+        ),
+        (
+            vec![st("o1", "single", 3, false, "none"), st("o2", "search", 0, true, "none"), json!({"a": "tick"})],
+            vec![it("o2", "ent"), it("o1", "res")],
+        ),
+    ];
+    let mut n = 0u64;
+    for (bi, (pre, items)) in bases.iter().enumerate() {
+        // length of the response stream of this base (dry run with a cut beyond the end)
+        let mut probe = pre.clone();
+        probe.push(json!({"a": "srvcut", "items": items, "cut": 1 << 30, "how": "eof"}));
+        let mut scratch = vec![];
+        n += 1;
+        run_script(1_000_000 + n, &probe, &mut scratch, rep);
+        let len = rep.counters.get("last_stream_len").copied().unwrap_or(0) as usize;
+        let probe_bounds: Vec<usize> = LAST_BOUNDS.with(|b| b.borrow().clone());
+        for how in ["eof", "reset", "garbage"] {
+            let mut cut = 0;
+            while cut <= len {
+                if how == "garbage" && !bounds_of(&probe_bounds, cut) {
+                    // bytes that complete or corrupt a frame in the middle are hostile input: C11's lane
+                    cut += stride;
+                    continue;
+                }
+                let mut sc = pre.clone();
+                sc.push(json!({"a": "srvcut", "items": items, "cut": cut, "how": how}));
+                n += 1;
+                run_script(1_000_000 + n, &sc, out, rep);
+                rep.count(&format!("base{}_{}", bi + 1, how));
+                cut += stride;
+            }
+        }
+    }
+    // write failures at every byte offset of the request stream
+    let wbase = vec![
+        st("o1", "single", 0, false, "none"),
+        st("o2", "search", 0, false, "none"),
+        json!({"a": "next", "o": "o2"}),
+        st("o3", "abandon", 0, false, "o1"),
+        st("o4", "single", 0, true, "none"),
+    ];
+    let starts: Vec<usize> = (0..wbase.len()).filter(|i| wbase[*i]["a"] == "start").collect();
+    for (k, si) in starts.iter().enumerate() {
+        // request k is cut short after `within` of its own bytes: measure the offset where it begins by a dry run
+        let mut scratch = vec![];
+        let pre: Vec<_> = wbase[..*si].to_vec();
+        n += 1;
+        run_script(1_000_000 + n, &pre, &mut scratch, rep);
+        let begin = rep.counters.get("last_written").copied().unwrap_or(0) as usize;
+        let mut scratch2 = vec![];
+        let pre2: Vec<_> = wbase[..=*si].to_vec();
+        n += 1;
+        run_script(1_000_000 + n, &pre2, &mut scratch2, rep);
+        let end = rep.counters.get("last_written").copied().unwrap_or(0) as usize;
+        let mut off = begin;
+        while off < end {
+            let mut sc: Vec<serde_json::Value> = vec![json!({"a": "wfail-at", "off": off})];
+            sc.extend(wbase[..*si].iter().cloned());
+            sc.push(json!({"a": "wfail-now"}));
+            sc.extend(wbase[*si..].iter().cloned());
+            n += 1;
+            run_script(1_000_000 + n, &sc, out, rep);
+            rep.count(&format!("write_fail_in_request_{}", k + 1));
+            off += stride;
+        }
+    }
+    rep.counters.remove("last_stream_len");
+    rep.counters.remove("last_written");
 }
 
 /// C05 stress lane: a multi-thread runtime, many cloned handles on many tasks issuing short operations against an
@@ -1046,6 +1207,19 @@ fn main() {
         }
         f.flush().unwrap();
         rep.write(&a[8]);
+        return;
+    }
+    if a.len() >= 5 && a[1] == "faultenum" {
+        // conn-run faultenum <out.ndjson> <stride> <report>
+        let mut rep = Report::new("conn-faultenum");
+        let mut out = vec![];
+        run_faultenum(&mut out, &mut rep, a[3].parse().unwrap());
+        let mut f = std::io::BufWriter::new(std::fs::File::create(&a[2]).unwrap());
+        for l in &out {
+            writeln!(f, "{}", l).unwrap();
+        }
+        f.flush().unwrap();
+        rep.write(&a[4]);
         return;
     }
     if a.len() >= 6 && a[1] == "script" {
